@@ -94,8 +94,11 @@ def compare_trans(out, label, model_t, prod_t):
                 out.fail(label + '@saturated-layer', 'layer %d product %s model %s' % (l, prod_t[l][:3], model_t[l][:3]))
                 return
             continue
-        fin = np.isfinite(a[l]) & np.isfinite(b[l])
-        if np.any(np.isfinite(a[l]) != np.isfinite(b[l])) or \
+        # transmittances below 1e-300 are denormal (or zero): they carry few or no significant digits, so -log of
+        # them is only compared for being beyond that point in both
+        tiny = (model_t[l] < 1e-300) & (prod_t[l] < 1e-300)
+        fin = np.isfinite(a[l]) & np.isfinite(b[l]) & ~tiny
+        if np.any((np.isfinite(a[l]) != np.isfinite(b[l])) & ~tiny) or \
                 not close(a[l][fin], b[l][fin], rtol=1e-9, atol=1e-12):
             out.fail(label, 'layer %d -log T model %s product %s' % (l, a[l][:3], b[l][:3]))
             return
